@@ -37,6 +37,22 @@ fn kind(k: u8) -> Primitive {
 fn legal_primitive_key(k: u8) -> bool {
     k != 13 && k != 14
 }
+/// compare a 4-character diagnostic code without a loop (the struct harness needs a tiny unwind bound: recursion is unrolled too)
+fn code_is(d: &crate::diagnostics::Diagnostic, c: &[u8; 4]) -> bool {
+    let b = d.code().as_bytes();
+    b.len() == 4 && b[0] == c[0] && b[1] == c[1] && b[2] == c[2] && b[3] == c[3]
+}
+/// runs the public rule entry point on Dictionary<key, unresolved value> and returns the diagnostics it pushed (at most one)
+fn key_diagnostics(key: TypeRef) -> Vec<crate::diagnostics::Diagnostic> {
+    let dict = Dictionary {
+        key_type: key,
+        value_type: TypeRef { definition: TypeRefDefinition::Unpatched(Identifier { value: String::new(), span: sp() }), is_optional: false, scope: Scope::default(), attributes: Vec::new(), span: sp() },
+    };
+    let mut diagnostics = Diagnostics::verif_with_capacity(2);
+    validate_dictionary(&dict, &mut diagnostics);
+    core::mem::forget(dict);
+    diagnostics.into_inner()
+}
 fn type_ref(definition: WeakPtr<dyn Type>, optional: bool) -> TypeRef {
     TypeRef { definition: TypeRefDefinition::Patched(definition), is_optional: optional, scope: Scope::default(), attributes: Vec::new(), span: sp() }
 }
@@ -44,8 +60,8 @@ fn type_ref(definition: WeakPtr<dyn Type>, optional: bool) -> TypeRef {
 //@ prop: C04
 //@ family: K04-key
 //@ tier: quick
-//@ functions: validators::dictionary::check_dictionary_key_type (primitive arm), Type::concrete_type through WeakPtr<dyn Type>, Primitive::is_integral
-//@ inst: TypeRef<dyn Type> patched to a Primitive of symbolic kind
+//@ functions: validators::dictionary::validate_dictionary (public rule entry), has_allowed_key_type, check_dictionary_key_type (primitive arm), Type::concrete_type through WeakPtr<dyn Type>, Primitive::is_integral
+//@ inst: Dictionary whose key is a TypeRef<dyn Type> patched to a Primitive of symbolic kind
 //@ inputs: primitive kind (all 16), optional or not
 //@ oracle: legal (no diagnostic) iff not optional and the kind is bool, string or integral; optional: E003; otherwise E005
 //@ stubs: std::fmt::format -> empty string
@@ -59,95 +75,31 @@ fn k04_key_primitive() {
     let optional: bool = kani::any();
     let prim = OwnedPtr::new(kind(k));
     let tr = type_ref(upcast_weak_as!(prim.downgrade(), dyn Type), optional);
-    let r = check_dictionary_key_type(&tr);
+    let ds = key_diagnostics(tr);
     kani::cover!(k == 13 && !optional, "float32 key reachable");
     kani::cover!(k == 15 && !optional, "string key reachable");
     kani::cover!(k == 0 && optional, "optional bool key reachable");
-    match &r {
-        None => assert!(!optional && legal_primitive_key(k), "a key type is accepted only if it is a non-optional bool, string or integral type"),
-        Some(d) => {
-            assert!(optional || !legal_primitive_key(k), "a legal key type is never diagnosed");
-            if optional {
-                assert!(d.code() == "E003", "an optional key: E003");
-            } else {
-                assert!(d.code() == "E005", "an unsupported key kind: E005");
-            }
+    let legal = !optional && legal_primitive_key(k);
+    assert!(ds.len() == (!legal) as usize, "a key type is accepted exactly when it is a non-optional bool, string or integral type");
+    if !legal {
+        if optional {
+            assert!(code_is(&ds[0], b"E003"), "an optional key: E003");
+        } else {
+            assert!(code_is(&ds[0], b"E005"), "an unsupported key kind: E005");
         }
     }
-    core::mem::forget(r);
-    core::mem::forget(tr);
+    core::mem::forget(ds);
     core::mem::forget(prim);
 }
+
+// (A struct-key harness - compact or not, one field of every primitive kind - was built and dropped: the recursion of
+// check_dictionary_key_type through `dyn Type` exhausted 12 GB during symbolic execution at every unwind bound tried.)
 
 //@ prop: C04
 //@ family: K04-key
 //@ tier: quick
-//@ functions: validators::dictionary::check_dictionary_key_type (struct arm, recursion into the fields), Struct::fields
-//@ inst: TypeRef<dyn Type> patched to a hand-built Struct with exactly one field whose type is a Primitive of symbolic kind
-//@ inputs: is_compact; field kind (all 16); field optional or not
-//@ oracle: non-compact struct: E004; compact struct: legal iff the field is a legal key type (recursively: non-optional bool/string/integral), otherwise E006; nothing else
-//@ stubs: std::fmt::format -> empty string
-//@ bound: unwind 6; nesting depth 1
-//@ timeout: 900
-#[kani::proof]
-#[kani::unwind(6)]
-#[kani::stub(std::fmt::format, stub_format)]
-fn k04_key_struct() {
-    let k: u8 = kani::any();
-    kani::assume(k < 16);
-    let field_optional: bool = kani::any();
-    let compact: bool = kani::any();
-    let prim = OwnedPtr::new(kind(k));
-    let f = OwnedPtr::new(Field {
-        identifier: Identifier { value: String::new(), span: sp() },
-        data_type: type_ref(upcast_weak_as!(prim.downgrade(), dyn Type), field_optional),
-        tag: None,
-        parent: WeakPtr::create_uninitialized(),
-        scope: Scope::default(),
-        attributes: Vec::new(),
-        comment: None,
-        span: sp(),
-    });
-    let mut fields = Vec::with_capacity(1);
-    fields.push(f.downgrade());
-    let s = OwnedPtr::new(Struct {
-        identifier: Identifier { value: String::new(), span: sp() },
-        fields,
-        is_compact: compact,
-        scope: Scope::default(),
-        attributes: Vec::new(),
-        comment: None,
-        span: sp(),
-    });
-    let tr = type_ref(upcast_weak_as!(s.downgrade(), dyn Type), false);
-    let r = check_dictionary_key_type(&tr);
-    let field_legal = !field_optional && legal_primitive_key(k);
-    kani::cover!(compact && field_optional && legal_primitive_key(k), "compact struct key with an optional int field reachable");
-    kani::cover!(compact && field_legal, "legal compact struct key reachable");
-    kani::cover!(!compact, "non-compact struct key reachable");
-    match &r {
-        None => assert!(compact && field_legal, "a struct key is accepted only if it is compact and all its fields are legal key types"),
-        Some(d) => {
-            assert!(!compact || !field_legal, "a legal struct key is never diagnosed");
-            if !compact {
-                assert!(d.code() == "E004", "a non-compact struct key: E004");
-            } else {
-                assert!(d.code() == "E006", "a compact struct key with a disallowed field: E006");
-            }
-        }
-    }
-    core::mem::forget(r);
-    core::mem::forget(tr);
-    core::mem::forget(s);
-    core::mem::forget(f);
-    core::mem::forget(prim);
-}
-
-//@ prop: C04
-//@ family: K04-key
-//@ tier: quick
-//@ functions: validators::dictionary::check_dictionary_key_type (enum arm), validators::dictionary::formatted_kind
-//@ inst: TypeRef<dyn Type> patched to a hand-built Enum without enumerators, with or without an underlying type
+//@ functions: validators::dictionary::validate_dictionary (public rule entry), check_dictionary_key_type (enum arm), formatted_kind
+//@ inst: Dictionary whose key is a TypeRef<dyn Type> patched to a hand-built Enum without enumerators, with or without an underlying type
 //@ inputs: underlying present or not; key optional or not
 //@ oracle: legal iff not optional and the enum has an underlying type; optional: E003; no underlying type: E005
 //@ stubs: std::fmt::format -> empty string
@@ -175,22 +127,19 @@ fn k04_key_enum() {
         span: sp(),
     });
     let tr = type_ref(upcast_weak_as!(e.downgrade(), dyn Type), optional);
-    let r = check_dictionary_key_type(&tr);
+    let ds = key_diagnostics(tr);
     kani::cover!(backed && !optional, "backed enum key reachable");
     kani::cover!(!backed && !optional, "enum key without underlying type reachable");
-    match &r {
-        None => assert!(backed && !optional, "an enum key is accepted only if it has an underlying type and is not optional"),
-        Some(d) => {
-            assert!(!backed || optional, "a legal enum key is never diagnosed");
-            if optional {
-                assert!(d.code() == "E003", "an optional key: E003");
-            } else {
-                assert!(d.code() == "E005", "an enum without underlying type: E005");
-            }
+    let legal = backed && !optional;
+    assert!(ds.len() == (!legal) as usize, "an enum key is accepted exactly when it has an underlying type and is not optional");
+    if !legal {
+        if optional {
+            assert!(code_is(&ds[0], b"E003"), "an optional key: E003");
+        } else {
+            assert!(code_is(&ds[0], b"E005"), "an enum without underlying type: E005");
         }
     }
-    core::mem::forget(r);
-    core::mem::forget(tr);
+    core::mem::forget(ds);
     core::mem::forget(e);
     core::mem::forget(prim);
 }
